@@ -420,7 +420,9 @@ func exec(c config, hist []int) hk.Step {
 				return
 			}
 			out, err := sys.apply(a)
-			if setv(err, i == len(hist)-1) {
+			// in a search a failing prefix was already reported as a history of its own; a scripted history is
+			// executed only as a whole, so a failure at any of its steps is reported
+			if setv(err, i == len(hist)-1 || len(c.Script) > 0) {
 				return
 			}
 			st.Outcome = out
